@@ -296,7 +296,40 @@ func runC02(c *fw.Ctx, idx int) fw.Result {
 		args = boolFlag(args, "skip-insertions", omitIns, idx%30 == 0)
 		args = boolFlag(args, "omit-reference", omitRef, idx%30 == 10)
 		// the reader of the pipe is slow: every byte must have been handed over before the exit
-		br := fw.RunBinSlowPipe(c.Bin, args, stdin, nil, "", 60*time.Second)
+		br := fw.RunBinSlowPipe(c.Bin, args, stdin, nil, "", 40*time.Second)
+		if len(sf.Queries) >= 30 && stdin == nil {
+			// directory mode with many queries and few file descriptors to spare: one file per
+			// query must not mean one open descriptor per query
+			od := filepath.Join(d, "pairs")
+			dargs := append([]string{"--nofile=20", c.Bin}, args...)
+			for i := range dargs {
+				if dargs[i] == "stdout" && i > 0 && dargs[i-1] == "-o" {
+					dargs[i] = od
+				}
+			}
+			bd := fw.RunBin("prlimit", dargs, nil, nil, "", 40*time.Second)
+			res.Evals++
+			res.Count("binary_directory_runs_with_20_descriptors", 1)
+			if bd.TimedOut {
+				binHang(&res, bd, "toPairAlign -o dir", map[string]string{"in.sam": sf.Text, "ref.fasta": refFasta}, dargs)
+			} else {
+				bad := ""
+				if bd.Exit != 0 {
+					bad = fmt.Sprintf("exit %d: %s", bd.Exit, clipStr(string(bd.Stderr), 300))
+				}
+				for _, q := range sf.Queries {
+					fn := strings.ReplaceAll(q.Name, "/", "_") + ".fasta"
+					got, _ := os.ReadFile(filepath.Join(od, fn))
+					if bad == "" && string(got) != files[fn] {
+						bad = fn + " differs from the entry point's file: " + firstDiff(files[fn], string(got))
+					}
+				}
+				if bad != "" {
+					res.Fail("directory-few-descriptors", fmt.Sprintf("toPairAlign -o <dir> for %d queries with RLIMIT_NOFILE=20: %s", len(sf.Queries), bad),
+						map[string]string{"in.sam": sf.Text, "ref.fasta": refFasta, "stderr.txt": string(bd.Stderr)}, dargs)
+				}
+			}
+		}
 		os.RemoveAll(d)
 		res.Evals++
 		res.Count("binary_stdout_runs", 1)
@@ -309,7 +342,7 @@ func runC02(c *fw.Ctx, idx int) fw.Result {
 			want.WriteString(files[strings.ReplaceAll(q.Name, "/", "_")+".fasta"])
 		}
 		if br.TimedOut {
-			res.Inconclusive = append(res.Inconclusive, "binary watchdog fired")
+			binHang(&res, br, "toPairAlign -o stdout", map[string]string{"in.sam": sf.Text, "ref.fasta": refFasta}, args)
 		} else if br.Exit != 0 || string(br.Stdout) != want.String() {
 			res.Fail("stdout-vs-directory", fmt.Sprintf("toPairAlign -o stdout (exit %d) differs from the concatenated per-query files: %s", br.Exit, firstDiff(want.String(), string(br.Stdout))),
 				map[string]string{"in.sam": sf.Text, "ref.fasta": refFasta, "stdout.txt": string(br.Stdout), "stderr.txt": string(br.Stderr)}, args)
